@@ -748,6 +748,8 @@ func (w *ocWorld) run(ops string, sizes []int) {
 			w.opStart(3, 2100+w.o.rng.Intn(2000), false)
 		case 'm':
 			w.opStart(1, size, true)
+		case 'M':
+			w.opStart(3, 1501+w.o.rng.Intn(2500), true)
 		case 'r':
 			lastResp = 1
 			w.opDeliver(1, i%3, "response")
@@ -859,7 +861,7 @@ func TestOracleC10(t *testing.T) {
 // C11: bit-identical, bounded, on-schedule retransmissions.
 func TestOracleC11(t *testing.T) {
 	o := newOracle(t)
-	for _, h := range []string{"LTTT", "sTLT", "mTTT", "sxTTT", "stuT", "sTtuT", "LtuTtuT", "sTsT"} {
+	for _, h := range []string{"LTTT", "sTLT", "mTTT", "MTTT", "MtuT", "sxTTT", "stuT", "sTtuT", "LtuTtuT", "sTsT"} {
 		for _, ma := range []int{0, 1, 3, 8} {
 			w := newOcWorld(o, ma, 100*time.Millisecond, false, false)
 			if w != nil {
@@ -868,7 +870,7 @@ func TestOracleC11(t *testing.T) {
 			}
 		}
 	}
-	o.clientHistories("sSLmtTuxr", 4, 100000)
+	o.clientHistories("sSLmMtTuxr", 4, 100000)
 }
 
 // C12: routing by transaction id, many transactions, recycled objects.
